@@ -263,9 +263,27 @@ def t_find_header(prop, tier, seed):
             if fm is not None or nm is not None:
                 sl, n, x, _ = fm if fm is not None else nm
                 eng_count = pst.scan_count if getattr(pst, 'scan_count', None) is not None else z3.If(z3.UGE(sl.meta, n), sl.meta - n + 1, z3.BitVecVal(0, 64))
-                r, m = q.check(f'{mode}: scan window = first min(L,8192) bytes [{kind}]', pst.pc, z3.Or(eng_count != spec_count, sl.addr != base))
+                r, m = q.check2(f'{mode}: scan window = first min(L,8192) bytes [{kind}]', small, pst.pc, z3.Or(eng_count != spec_count, sl.addr != base))
                 if r == z3.sat:
-                    viol.append(fh_violation(m, mem, base, L, mode, 'verif', 'the scan does not cover exactly the first min(len, 8192) bytes', q, pst.pc, small))
+                    # look for a behaviour-revealing model: a match found outside the specified windows, or a
+                    # specified window holding the magic that the scan never looked at
+                    j = z3.BitVec('witness_j', 64)
+                    magic_at_j = rd32(mem, base + j) == z3.BitVecVal(HMAGIC, 32)
+                    if fm is not None:
+                        extra = [z3.UGE(fm[2], spec_count)]
+                        cut = fm[2]
+                    else:
+                        extra = [z3.UGE(j, eng_count), z3.ULT(j, spec_count), magic_at_j]
+                        cut = j
+                    r2, m2 = q.check(f'{mode}: scan window [behaviour-revealing model]', small, pst.pc, *extra)
+                    v = fh_violation(m2 if r2 == z3.sat else m, mem, base, L, mode, 'verif', 'the scan does not cover exactly the first min(len, 8192) bytes', q, pst.pc, small)
+                    if r2 == z3.sat and v['buf'] is not None:
+                        # bytes before the witness position are unconstrained on this path: no earlier occurrence
+                        c = m2.eval(cut, model_completion=True).as_long()
+                        raw = bytearray(bytes.fromhex(v['buf']))
+                        raw[:min(c, len(raw))] = bytes(min(c, len(raw)))
+                        v['buf'] = bytes(raw).hex()
+                    viol.append(v)
             if kind == 'panic':
                 r, m = q.check(f'{mode}: panic path [{val}]', pst.pc, small)
                 if r != z3.sat:
@@ -546,10 +564,12 @@ def t_builder_setters(crate):
                     elif kind in ('opt', 'optbox'):
                         fields.append(Enum('Option', z3.BitVec('set_' + sname, 64), {'Some': (Opaque(('old', sname)),), 'None': ()}, {0: 'None', 1: 'Some'}))
                     else:
-                        fields.append(Agg('Vec', (tuple(Opaque(('old', sname, j)) for j in range(nold)),)))
+                        # boxed tags already in the list: distinct symbolic heap objects
+                        fields.append(Agg('Vec', (tuple(Fat(z3.BitVec(f'old_{sname}_{j}', 64), z3.BitVec(f'oldmeta_{sname}_{j}', 64)) for j in range(nold)),)))
                 mem = fresh_mem()
                 argaddr = z3.BitVec('arg_box', 64)
-                arg = Fat(argaddr, z3.BitVec('arg_meta', 64)) if setter == 'add_custom_tag' else Opaque('ARG')
+                boxed_arg = f.locals.get('_2', '').startswith('Box<') or 'boxed::Box<' in f.locals.get('_2', '')
+                arg = Fat(argaddr, z3.BitVec('arg_meta', 64)) if boxed_arg else Opaque('ARG')
                 st = State(z3.BoolVal(True), mem)
                 before = tuple(fields)
                 try:
